@@ -160,6 +160,13 @@ func PoolGets() int          { return 0 }
 func LocksHeld() int         { return 0 }
 func TrackRelease(on bool)   {}
 
+// Quiesce blocks until no other goroutine of the harness can make progress (gosym: exact, the
+// scheduler knows; natively: a generous sleep).
+func Quiesce() { time.Sleep(200 * time.Millisecond) }
+
+// LogPrints: number of log.Println/Printf calls so far (gosym only).
+func LogPrints() int { return 0 }
+
 // AtomicOps: number of sync/atomic operations executed so far (gosym only; natively 0).
 func AtomicOps() int { return 0 }
 
